@@ -42,12 +42,18 @@ def arg_alphabet(N, full):
     return ops
 
 
+_ARGMOD = []
+
+
 def apply(o, op):
     if op[0] == "clear":
         o.clear_phosphosites()
     else:
         a = op[1]
-        o.set_phosphosites(list(a) if isinstance(a, list) else a)
+        arg = list(a) if isinstance(a, list) else a
+        o.set_phosphosites(arg)
+        if isinstance(a, list) and arg != list(a):
+            _ARGMOD.append((list(a), list(arg)))      # the caller's own list was edited by the call
 
 
 def probe(o):
@@ -211,7 +217,11 @@ def explore(seq, full):
             try:
                 bystander = SP(seq)
                 o = build(seq, hist, probes=(ntrans % 5 == 0 and len(seq) <= 4))
+                del _ARGMOD[:]
                 apply(o, op)
+                if _ARGMOD:
+                    out.append({"key": "argument-list-modified", "what": "%s: set_phosphosites(%r) edited the caller's list to %r (the same list handed to "
+                                "another object afterwards would request different positions)" % (seq, _ARGMOD[0][0], _ARGMOD[0][1]), "case": case})
                 got = o.get_phosphosites()
                 calls += len(hist) + 2
                 if bystander.get_phosphosites() != [] or SP(seq).get_phosphosites() != []:
@@ -295,6 +305,8 @@ def check_copies_and_types(seq):
 
 
 def replay(case):
+    if case.get("kind") == "two-wrappers":
+        return two_wrappers(case["seq"])[0]
     if case.get("kind") == "copies":
         return check_copies_and_types(case["seq"])[0]
     seq = case["seq"]
@@ -302,6 +314,7 @@ def replay(case):
     hist = [(h[0], (h[1] if not isinstance(h[1], list) else h[1])) for h in hist]
     out = []
     sites = []
+    del _ARGMOD[:]
     try:
         o = SP(seq)
         for op in hist:
@@ -313,11 +326,53 @@ def replay(case):
             sites = [] if op[0] == "clear" else model_set(seq, sites, op[1])
     except Exception as e:  # noqa
         return [{"key": "set-raises", "what": "%s: history %r raised %r" % (seq, hist, e), "case": case}]
+    if _ARGMOD:
+        out.append({"key": "argument-list-modified", "what": "%s: set_phosphosites(%r) edited the caller's list to %r" % (seq, _ARGMOD[0][0], _ARGMOD[0][1]),
+                    "case": case})
     state_invariants(seq, sites, o, case, out)
     return out
 
 
-MANY = ["KSEKTYKESEYKTE", "SKTEYKSETKYESK", "SSTTYYKE"]     # 6, 7 and 6 (adjacent) sites: 64 / 128 on-off states each
+def two_wrappers(seq):
+    """Two SequenceParameters objects around ONE backend object: sites set / cleared through either are seen by both, and the
+    phospho-queries of both follow the shared list (also when one of them answered the query before the other changed the list)."""
+    from localcider.sequenceParameters import SequenceParameters as _SP
+    out = []
+    calls = 0
+    sty = [i + 1 for i, a in enumerate(seq) if a in "STY"]
+    if len(sty) < 2:
+        return out, calls
+    case = {"kind": "two-wrappers", "seq": seq}
+
+    def expect(sites):
+        ps = "".join("E" if (i + 1) in sites else a for i, a in enumerate(seq))
+        return ps, fresh_six(ps)[0]
+    try:
+        A = SP(seq)
+        A.set_phosphosites([sty[0]])
+        A.get_kappa_after_phosphorylation()
+        A.get_full_phosphostatus_kappa_distribution()
+        B = _SP(SeqObj=A.SeqObj)
+        steps = [("B.set", lambda: B.set_phosphosites([sty[1]]), [sty[0], sty[1]]), ("A.query", lambda: None, [sty[0], sty[1]]),
+                 ("B.clear", lambda: B.clear_phosphosites(), []), ("A.set", lambda: A.set_phosphosites(list(reversed(sty))), list(reversed(sty))),
+                 ("A.clear+B.set", lambda: (A.clear_phosphosites(), B.set_phosphosites(sty[-1])), [sty[-1]])]
+        for name, f, want in steps:
+            f()
+            calls += 1
+            for h, hn in ((A, "first"), (B, "second")):
+                ps, ka = expect(want)
+                got = (h.get_phosphosites(), h.get_phosphosequence(), h.get_kappa_after_phosphorylation(), len(h.get_full_phosphostatus_kappa_distribution()))
+                calls += 4
+                if got != (want, ps, ka, 2 ** len(want)):
+                    out.append({"key": "two-wrappers-disagree", "what": "%s: after %s the %s wrapper reports (sites, phosphosequence, kappa after, "
+                                "#states) = %r, expected %r" % (seq, name, hn, got, (want, ps, ka, 2 ** len(want))), "case": case})
+                    return out, calls
+    except Exception as e:  # noqa
+        out.append({"key": "query-raises", "what": "%s: two-wrapper scenario raised %r" % (seq, e), "case": case})
+    return out, calls
+
+
+MANY = ["KSEKTYKESEYKTE", "SKTEYKSETKYESK", "STYSTYSTYSTKE", "SSTTYYKE"]     # 6, 7, 11 and 6 (adjacent) sites: 64 / 128 / 2048 on-off states
 
 
 def many_sites(seq):
@@ -325,7 +380,7 @@ def many_sites(seq):
     sty = [i + 1 for i, a in enumerate(seq) if a in "STY"]
     out = []
     calls = 0
-    for order in (list(reversed(sty)), sty[1::2] + sty[0::2]):
+    for order in ((list(reversed(sty)), sty[1::2] + sty[0::2]) if len(sty) < 10 else (sty[1::2] + sty[0::2],)):
         hist = [("set", list(order))]
         case = {"kind": "hist", "seq": seq, "history": hist}
         try:
@@ -341,6 +396,11 @@ def shard(items):
     acc = core.Acc()
     for seq, full in items:
         v, nst, ntr, calls = many_sites(seq) if full == "many" else explore(seq, full)
+        if full == "many":
+            v2, c2 = two_wrappers(seq)
+            v = v + v2
+            calls += c2
+            ntr += c2
         if len(seq) >= 3 and full != "many":
             v2, c2 = check_copies_and_types(seq)
             v = v + v2
@@ -371,7 +431,8 @@ def run(tier, seed, t0):
             items += [(w, True) for w in spaces.shard_words(ALPHA, L, "")]
         items += [(w, False) for w in spaces.shard_words("SYK", 5, "")]
         items += [(w, False) for w in LONG + LONG4]
-    items += [(w, "many") for w in (MANY if tier == "thorough" else MANY[:2])]
+    items += [(w, "many") for w in (MANY if tier == "thorough" else MANY[:3])]
+    items += [(w, "many") for w in LONG]          # (two-wrapper scenario on the 12-mers as well)
     items.sort(key=lambda it: -(sum(it[0].count(c) for c in "STY") * 10 + len(it[0])))
     nsh = 16 * 8
     acc = core.pmap(shard, [items[i::nsh] for i in range(nsh)])
@@ -386,7 +447,7 @@ def run(tier, seed, t0):
              "the S/T/Y sites). In every state: get_phosphosites == model, sequence unchanged, get_phosphosequence = E at exactly "
              "those positions, get_kappa_after_phosphorylation = kappa of a fresh object on that sequence, distribution has 2^k "
              "entries in binary counting order whose six numbers equal those of the substituted sequence, "
-             "get_all_phosphorylatable_sites constant (also for two 14-mers with 6 and 7 sites all set: 64 / 128 distribution entries); in every state the lists the queries returned are overwritten by the caller and one more set call must still follow the model; for every sequence of >=3 residues a shuffled copy with all positions frozen must be an independent object (sites neither inherited nor shared), and positions given as numpy integers of seven widths in lists/tuples/arrays must behave like ints; non-trivial = states with >=1 site" % (
+             "get_all_phosphorylatable_sites constant (also for sequences with 6, 7 and 11 sites all set: 64 / 128 / 2048 distribution entries); a list argument is not edited by the call; two wrappers around one backend object see each other's set/clear calls; in every state the lists the queries returned are overwritten by the caller and one more set call must still follow the model; for every sequence of >=3 residues a shuffled copy with all positions frozen must be an independent object (sites neither inherited nor shared), and positions given as numpy integers of seven widths in lists/tuples/arrays must behave like ints; non-trivial = states with >=1 site" % (
                  "over {S,Y,K,G}, length 1..3" if tier == "quick" else "over {S,T,Y,K,E,G}, length 1..4; over {S,Y,K}, length 5"),
         bounds={"words": len(items), "depth": "fixpoint"},
         assumptions=["other object state (delta-max cache etc.) is C15's job; non-integer positions are not in the property"])
